@@ -285,8 +285,10 @@ pub fn run(tier: &str, seed: i64) -> Outcome {
     let q = tier == "quick";
     let spaces_b = vec![
         Space::slice(Universe::UE { extras: 0, capturer_files: None, slider_only: false }, if q { 256 } else { 16 }, off),
+        Space::slice(Universe::UEA, if q { 8 } else { 1 }, off),
         Space::all(Universe::UC { extras: 0 }),
         Space::slice(Universe::UC { extras: 1 }, if q { 512 } else { 32 }, off),
+        Space::slice(Universe::UCK { extras: 0 }, if q { 8 } else { 1 }, off),
         Space::slice(Universe::UP, if q { 16 } else { 2 }, off),
         Space::slice(Universe::U2, if q { 64 } else { 8 }, off),
         Space::slice(Universe::U3, if q { 32768 } else { 2048 }, off),
